@@ -35,8 +35,10 @@ def getParams (j : Json) : Except String (LianVerif.LangRun.Params × WfParams) 
 /-- request {"op": "one", "n": start id, "tree": tree, "params": {…}}
     reply   {"res": "ok", "next": n', "rows": […], "main": [… after add_main_func …], "wfgir": bool}
          or {"res": "err:…", "wfgir": bool}
-    request {"op": "run", "start": n | "maxModuleId": m, "units": [[unit id, tree | null], …]}
-    reply   {"res": "ok", "units": [[unit id, rows], …], "final": n} or {"res": "err:…"}
+    request {"op": "run", "variant": "current" | "pinned", "start": n | "maxModuleId": m,
+             "units": [[unit id, tree | null | {"raised": exception class}], …]}
+    reply   {"res": "ok", "units": [[unit id, rows], …], "final": n, "wfgir": [bool | null per unit]}
+         or {"res": "err:…"}
     request {"op": "adjust", "ns": [n, …]}  → [adjust_node_id(n), …] -/
 def handle (j : Json) : Except String Json := do
   let (P, W) ← getParams j
@@ -58,14 +60,24 @@ def handle (j : Json) : Except String Json := do
       | .error _ => do pure (LianVerif.LangRun.startId P (← getNat (← field j "maxModuleId")))
     let units ← listOf (fun u => do
       let p ← getArr u
-      if p.size != 2 then throw "unit must be [id, tree|null]"
+      if p.size != 2 then throw "unit must be [id, tree | null | {\"raised\": cls}]"
       let t ← match p[1]! with
-        | .null => pure none
-        | tj => do pure (some (← getTree tj))
+        | .null => pure (LianVerif.LangRun.Frontend.gir none)
+        | tj => match tj.getObjVal? "raised" with
+          | .ok c => do pure (LianVerif.LangRun.Frontend.raised (← getStr c))
+          | .error _ => do pure (LianVerif.LangRun.Frontend.gir (some (← getTree tj)))
       pure (← getNat p[0]!, t)) (← field j "units")
-    match LianVerif.LangRun.langRun P start units with
+    let variant ← getStr (fieldD j "variant" (Json.str "current"))
+    let result ← match variant with
+      | "current" => pure (LianVerif.LangRun.langRun P start units)
+      | "pinned" => pure (LianVerif.LangRun.langRun0 P start units)
+      | v => throw s!"unknown variant {v}"
+    match result with
     | .ok (us, nf) =>
       pure (Json.mkObj [("res", Json.str "ok"), ("start", jNat start), ("final", jNat nf),
+        ("wfgir", jList (fun (u : Nat × LianVerif.LangRun.Frontend) => match u.2 with
+            | .gir (some t) => Json.bool (WfGir (bodyKey W) t)
+            | _ => Json.null) units),
         ("units", jList (fun (u : Nat × Rows) => Json.arr #[jNat u.1, jList jRow u.2]) us)])
     | .error e => pure (Json.mkObj [("res", Json.str (errName e))])
   | "adjust" =>
